@@ -181,6 +181,22 @@ def union_family():
     return pats, reqs
 
 
+def run_family(quick=False):
+    """(S1 | S2) with S1, S2 over {a,b,c} of length 4-5 holding the required symbol a exactly
+    twice (adjacent in some, interleaved with fillers in others): the shortest completion of
+    [a, a] is the shorter side whatever the grouping of insertions and matches -- exposes a
+    search whose queue order is not by sequence length.  Epsilon-free, so F5-free."""
+    sides = [s for n in (4, 5) for s in itertools.product(("a", "b", "c"), repeat=n) if s.count("a") == 2]
+    out = []
+    for i, s1 in enumerate(sides):
+        for s2 in sides:
+            if s1 != s2 and len(s1) >= len(s2):
+                if quick and not (len(s1) == 5 and len(s2) == 4 and "aa" in "".join(s1)):
+                    continue  # quick: a longer side with an adjacent pair against every shorter side
+                out.append(("alt", _seq(s1), _seq(s2)))
+    return out
+
+
 def _seq(symbols):
     r = ("sym", symbols[-1]) if symbols[-1] != "." else R.ANY
     for x in reversed(symbols[:-1]):
@@ -239,9 +255,12 @@ def _shard_families(arg):
 
 
 def _shard_union(arg):
-    w, n = arg
+    w, n, quick = arg
     pats, reqs = union_family()
     t = Tally()
+    for p in run_family(quick)[w::n]:
+        run_case(("a", "a"), [p], 3, None, t, "run-family")
+        t.count("run_family_calls")
     for p in pats[w::n]:
         for r in reqs:
             for lim in (1, 3):
@@ -305,10 +324,10 @@ def run(ctx):
     pats, cases = gen_cases(ctx.tier)
     total = pool.map_shards(_shard, [(ctx.tier, w, n) for w in range(n)])
     total.merge(pool.map_shards(_shard_real, [(w, 32) for w in range(32)]))
-    total.merge(pool.map_shards(_shard_union, [(w, 32) for w in range(32)]))
+    total.merge(pool.map_shards(_shard_union, [(w, 64, ctx.quick) for w in range(64)]))
     total.merge(pool.map_shards(_shard_families, [(w, 64) for w in range(64)]))
     upats, ureqs = union_family()
-    expected = len(cases) + len(real_cases()) + len(upats) * len(ureqs) * 2 + len(rejoin_family()) * 3 + len(loop_pair_family()) * 7 * 2
+    expected = len(cases) + len(real_cases()) + len(upats) * len(ureqs) * 2 + len(rejoin_family()) * 3 + len(loop_pair_family()) * 7 * 2 + len(run_family(ctx.quick))
     if total.n["calls"] != expected:
         total.error("evaluated %d of %d" % (total.n["calls"], expected))
     total.sample("generated", {"required": ["b"], "patterns": ["(a b) | (b (c c))"], "depth_limit": 3})
@@ -326,6 +345,7 @@ def run(ctx):
             "real_cases": len(real_cases()),
             "rejoin_family": "%d patterns (P1 | P2) T x depth_limit {1,2,3}, required [m]" % len(rejoin_family()),
             "loop_pair_family": "%d ordered pattern pairs (loop, forced run) x required lists over {x,y} up to length 2, both orders" % len(loop_pair_family()),
+            "run_family": "%d patterns (S1 | S2), sides of length 4-5 over {a,b,c} holding a exactly twice, |S1| >= |S2|, both orders; required [a, a], depth_limit 3 (quick: |S1| = 5 with the pair adjacent, |S2| = 4)" % len(run_family(ctx.quick)),
             "union_family": "all (s1 s2 [s3]) | (t1 t2 [t3]) over {a,b,c} (%d patterns) x required lists over {a,b} up to length 2 x depth_limit {1,3}" % len(upats),
         },
         "rule": "every (required list, pattern set, depth_limit, symbol_priority) of the stated product is given to the real make_matching_sequence and judged against a reference shortest-completion search with a visited set; states = distinct inputs whose answer needed insertions",
